@@ -127,11 +127,11 @@ def contracts(hints, angle_kind):
             if m and n in (3, 4):
                 s, c = sc('$0')
                 return Contract(ensures=['ret == m%d_rot_%s(%s, %s)' % (n, m.group(1), s, c)],
-                                tail=hint_call(hints[(m.group(1), n)], {'s': 's', 'c': 'c'}), tags=('identity',))
+                                pre=hint_call(hints[(m.group(1), n)], {'s': s, 'c': c}), tags=('identity',))
             if name == 'from_axis_angle' and n in (3, 4):
                 s, c = sc('$1')
                 return Contract(ensures=['ret == m%d_axis_angle($0, %s, %s)' % (n, s, c)],
-                                tail=hint_call(hints[('axis', n)], {'a': 'axis', 's': 's', 'c': 'c'}), tags=('identity',))
+                                pre=hint_call(hints[('axis', n)], {'a': '$0', 's': s, 'c': c}), tags=('identity',))
             return None
         if st == 'Quaternion' and tn == 'Rotation3':
             if name == 'from_axis_angle':
